@@ -100,6 +100,10 @@ func setRejoinContext(ctx *context) error {
 }
 
 func createRejoinAnsPayload(ctx *context) error {
+	if ctx.rejoinReqPayload.RxDelay < 0 || ctx.rejoinReqPayload.RxDelay > 15 {
+		return fmt.Errorf("invalid RxDelay %d (must be 0 - 15)", ctx.rejoinReqPayload.RxDelay)
+	}
+
 	var cFList *lorawan.CFList
 	if len(ctx.rejoinReqPayload.CFList[:]) != 0 {
 		cFList = new(lorawan.CFList)
